@@ -729,6 +729,33 @@ def noDynList : List Carrier → Bool
   | c :: cs => noDyn c && noDynList cs
 end
 
+/-- The outermost check of `ser`: does the column type have the KIND the (peeled) value needs?  It is made
+before anything is written and does not depend on the value being populated (an empty `Vec<i32>` bound to
+`text` fails it). -/
+def kindOk (t : CqlTy) : Core → Bool
+  | .vec _ => match t with
+    | .list _ => true
+    | .set _ => true
+    | .vector _ _ => true
+    | _ => false
+  | .set _ => match t with
+    | .list _ => true
+    | .set _ => true
+    | _ => false
+  | .map _ => match t with
+    | .map _ _ => true
+    | _ => false
+  | .tuple fs => match t with
+    | .tuple ts => decide (fs.length ≤ ts.length)
+    | _ => false
+  | .udt ks name _ => match t with
+    | .udt dks dname _ => decide (ks = dks) && decide (name = dname)
+    | _ => false
+  | .scalar s _ => match t with
+    | .native n => s.serNatives.contains n
+    | _ => false
+  | _ => true
+
 /-! ### typing of values by carriers -/
 
 /-- `x` is the embedding of a `CqlValue` (see `RVal`): leaves, `Empty`, sequences / maps of such, tuples and
